@@ -52,7 +52,7 @@ def methodRank (r : DidRow) : Nat := r.method.idx
 def observe (st : St) (result : String) : St × String := Id.run do
   let mut st := st
   let w := st.w
-  let mut out := s!"{result} log={logCount w} keys={w.keys.length}"
+  let mut out := s!"{result} log={logCount w} keys={w.keys.length} list=ok"
   for s in sortStr st.subjects do
     out := out ++ s!" || {s}"
     let rows := listDIDs w s
